@@ -1,10 +1,8 @@
 """C09 check configuration (see lib/props.py for the field meanings)."""
 
 PROP = {
-    "level_text_more": "TestVFC09ResetAcrossHourStep holds the flush worker inside the clock function the module is configured with (after it has read the hour), lets the hour end and the statistics be reset, and demands every query counted afterwards; TestVFC09CloseVsFlush overlaps a clean shutdown with the worker's poll at the hour step in real goroutines (a round without progress for 60 s is a deadlock) and checks the totals after the restart.",
+    "level_text_more": "The part 'home' runs the whole program: the real first-run installation starts the real DNS server on a loopback port, queries are sent over UDP, POST /control/dns_config restarts the server (in some histories another program takes the port in the moment it is free, so that the restart fails and the server stays stopped), the production cleanup() runs, and the totals in a copy of the statistics database -- what the next start reads -- must equal what GET /control/stats reported last (one history per process, 12/48 processes). TestVFC09ResetAcrossHourStep holds the flush worker inside the clock function the module is configured with (after it has read the hour), lets the hour end and the statistics be reset, and demands every query counted afterwards; TestVFC09CloseVsFlush overlaps a clean shutdown with the worker's poll at the hour step in real goroutines (a round without progress for 60 s is a deadlock) and checks the totals after the restart.",
     "thorough_scale": 2,
-    "pkg": "internal/stats",
-    "files": ["stats/c09_seq_test.go", "stats/c09_conc_test.go"],
     "level": "exploration",
     "technique": "property-based testing (rapid): stateful history machine against a per-hour reference model, "
                  "observed at GET /control/stats; concurrent updaters/flush/readers with bounds and conservation "
@@ -30,14 +28,23 @@ PROP = {
                   "clock step and the next run of the flush worker (<= 1 s in production) are not generated. "
                   "The concurrent part judges only schedules that occur and is not built with -race in the "
                   "registered tiers (4-5x slower; one manual -race run of the whole quick tier was clean). Trusts bbolt, encoding/json, net/http/httptest.",
-    "tests": [
-        ("TestVFC09History", (400, 1500), {"steps": 40}),
-        ("TestVFC09Concurrent", (120, 500)),
-        ("TestVFC09ResetVsFlush", (400, 3000)),
-        ("TestVFC09ResetAcrossHourStep", (100, 1000)),
-        ("TestVFC09CloseVsFlush", (100, 150)),
+    "parts": [
+        {"name": "stats", "pkg": "internal/stats", "files": ["stats/c09_seq_test.go", "stats/c09_conc_test.go"],
+         "tests": [
+             ("TestVFC09History", (400, 1500), {"steps": 40}),
+             ("TestVFC09Concurrent", (120, 500)),
+             ("TestVFC09ResetVsFlush", (400, 3000)),
+             ("TestVFC09ResetAcrossHourStep", (100, 1000)),
+             ("TestVFC09CloseVsFlush", (100, 150)),
+         ],
+         "plain": ["TestVFC09Scenarios"]},
+        # the whole program: installation, real DNS server, dns_config restarts (some failing), production cleanup()
+        {"name": "home", "pkg": "internal/home",
+         "files": ["home/common_assembly_test.go", "home/c11_test.go", "home/c11_raw_test.go", "home/c11_shutdown_test.go",
+                   "home/c11_install_test.go", "home/c09_home_test.go"],
+         # one history per process: the DNS server registers its HTTP handlers once per process
+         "tests": [("TestVFC09HomeShutdown", (1, 1), {"shards": (12, 48), "shrinktime": "0s", "thorough_scale": 1})]},
     ],
-    "plain": ["TestVFC09Scenarios"],
     "shards": (4, 16),
     "workers": (4, 16),
     "rule": "Cases: histories (rapid state machine, ~40 steps on average) over update / advance k hours + flush "
